@@ -384,7 +384,7 @@ func (w *wbuild) driveRemote(s *simrt.Sched, out *RunResult, u *Universe, cs *wb
 			for _, e := range res.Events {
 				if e.Kind == "cmd" && w.U.Specs[e.Label] != nil {
 					remote.unc[evl.Strict(e.Label)] = true
-					m.cm.unc[evl.Strict(e.Label)] = true
+					m.cm.markUnc(evl, e.Label)
 				}
 			}
 		}
@@ -485,6 +485,9 @@ func (w *wbuild) driveRemote(s *simrt.Sched, out *RunResult, u *Universe, cs *wb
 			for _, mm := range []*remoteMachine{A, B} {
 				for k := range mm.cm.strict {
 					mm.cm.unc[k] = true
+				}
+				for k := range mm.cm.loose {
+					mm.cm.uncL[k] = true
 				}
 			}
 			cs.History = append(cs.History, HistOp{Op: "remote-loses-blob", Note: note})
